@@ -281,9 +281,31 @@ pub fn s_of(v: Vec<char>) -> String {
     v.into_iter().collect()
 }
 
-/// strings of general characters: mostly short, with tails
+/// strings of general characters: mostly short, with tails, sometimes behind / in front of a long pad
 pub fn gstring() -> BoxedStrategy<String> {
-    lens(gchar())
+    padded(lens(gchar()))
+}
+
+/// pad units that are valid in both string classes and need no mapping: 1, 2, 3 and 4 UTF-8 bytes
+pub const PAD_UNITS: [&str; 6] = ["a", "\u{e9}", "\u{6f22}", "\u{10428}", "ab\u{e9}", "x\u{10428}\u{6f22}"];
+/// pad lengths (in units) around the usual capacity / buffer thresholds
+pub const PAD_LENS: [usize; 18] = [7, 8, 9, 15, 16, 17, 23, 31, 32, 33, 63, 64, 65, 127, 128, 129, 255, 257];
+
+pub fn pad(unit: usize, len: usize) -> String {
+    PAD_UNITS[unit % PAD_UNITS.len()].repeat(PAD_LENS[len % PAD_LENS.len()])
+}
+
+/// With probability ~1/6 put a long pad of valid characters before and/or after the generated string, so that the
+/// interesting characters stand far from offset 0 (byte offsets and character counts diverge, buffers are re-allocated)
+pub fn padded(base: BoxedStrategy<String>) -> BoxedStrategy<String> {
+    (base, 0u8..24, 0usize..6, 0usize..18, 0usize..6, 0usize..18)
+        .prop_map(|(s, mode, u1, l1, u2, l2)| match mode {
+            0 | 1 => format!("{}{}", pad(u1, l1), s),
+            2 => format!("{}{}", s, pad(u2, l2)),
+            3 => format!("{}{}{}", pad(u1, l1), s, pad(u2, l2)),
+            _ => s,
+        })
+        .boxed()
 }
 pub fn lens(c: BoxedStrategy<char>) -> BoxedStrategy<String> {
     prop_oneof![
@@ -334,7 +356,7 @@ pub fn respelled(base: BoxedStrategy<String>) -> BoxedStrategy<String> {
 /// Strings that are mostly valid for the given pool, with 0..=2 risky characters injected
 pub fn valid_biased(valid: &'static [char], risky: BoxedStrategy<char>) -> BoxedStrategy<String> {
     let base = prop_oneof![70 => vec(pick(valid), 1..=8), 25 => vec(pick(valid), 1..=20), 5 => vec(pick(valid), 1..=80)];
-    (base, prop_oneof![45 => vec((risky.clone(), 0u32..=u32::MAX), 0..=0), 35 => vec((risky.clone(), 0u32..=u32::MAX), 1..=1), 20 => vec((risky, 0u32..=u32::MAX), 2..=2)])
+    let out = (base, prop_oneof![45 => vec((risky.clone(), 0u32..=u32::MAX), 0..=0), 35 => vec((risky.clone(), 0u32..=u32::MAX), 1..=1), 20 => vec((risky, 0u32..=u32::MAX), 2..=2)])
         .prop_map(|(mut b, inj)| {
             for (c, pos) in inj {
                 let at = ((pos as u64 * (b.len() as u64 + 1)) >> 32) as usize;
@@ -342,5 +364,6 @@ pub fn valid_biased(valid: &'static [char], risky: BoxedStrategy<char>) -> Boxed
             }
             s_of(b)
         })
-        .boxed()
+        .boxed();
+    out
 }
